@@ -359,4 +359,134 @@ theorem selectable_not_bl {fl idx} {rv : RV} (h : selectable fl idx rv = true) :
   · rfl
   · simp [hb] at h
 
+/-! ### Purge -/
+
+theorem boundaryIdx_spec (act sel : Option Ver) :
+    ∀ (l : List RV) (skA skS skT : Bool) (k i : Nat),
+      boundaryIdx act sel skA skS skT k l = some i →
+      ∃ j, i = k + j ∧ j ≤ l.length ∧
+        (∀ a, act = some a → skA = true ∨ ∃ rv ∈ l.take j, rv.ver = a) ∧
+        (∀ a, sel = some a → skS = true ∨ ∃ rv ∈ l.take j, rv.ver = a) ∧
+        (skT = true ∨ ∃ rv ∈ l.take j, rv.pre = false)
+  | [], _, _, _, _, _, h => by simp [boundaryIdx] at h
+  | rv :: rest, skA, skS, skT, k, i, h => by
+    unfold boundaryIdx at h
+    split at h
+    · obtain ⟨j, hi, hj, hA, hS, hT⟩ := boundaryIdx_spec act sel rest _ _ _ _ _ h
+      refine ⟨j + 1, by omega, by simp; omega, ?_, ?_, ?_⟩
+      · intro a ha
+        rcases hA a ha with h1 | ⟨x, hx, hxa⟩
+        · rcases Bool.or_eq_true_iff.mp h1 with h1 | h1
+          · exact Or.inl h1
+          · refine Or.inr ⟨rv, by simp, ?_⟩
+            have : act = some rv.ver := by simpa using h1
+            rw [ha] at this; cases this; rfl
+        · exact Or.inr ⟨x, by simp [hx], hxa⟩
+      · intro a ha
+        rcases hS a ha with h1 | ⟨x, hx, hxa⟩
+        · rcases Bool.or_eq_true_iff.mp h1 with h1 | h1
+          · exact Or.inl h1
+          · refine Or.inr ⟨rv, by simp, ?_⟩
+            have : sel = some rv.ver := by simpa using h1
+            rw [ha] at this; cases this; rfl
+        · exact Or.inr ⟨x, by simp [hx], hxa⟩
+      · rcases hT with h1 | ⟨x, hx, hxa⟩
+        · rcases Bool.or_eq_true_iff.mp h1 with h1 | h1
+          · exact Or.inl h1
+          · exact Or.inr ⟨rv, by simp, by simpa using h1⟩
+        · exact Or.inr ⟨x, by simp [hx], hxa⟩
+    · rename_i hc
+      cases h
+      refine ⟨0, by omega, by omega, ?_, ?_, ?_⟩
+      · intro a ha
+        left
+        cases hs : skA
+        · simp [hs, ha] at hc
+        · rfl
+      · intro a ha
+        left
+        cases hs : skS
+        · simp [hs, ha] at hc
+        · rfl
+      · left
+        cases hs : skT
+        · simp [hs] at hc
+        · rfl
+
+/-- What `Purge` does: nothing but (possibly) re-sorting, or cutting the sorted list behind the boundary. -/
+theorem purge_shape (r : Res) (keep : Int) :
+    (∃ l', l'.Perm r.versions ∧ r.purge keep = { r with versions := l' }) ∨
+    (∃ i, boundaryIdx r.active r.selected false false false 0 (sortDesc r.versions) = some i ∧
+      i + keepOf keep < (sortDesc r.versions).length ∧
+      r.purge keep = { r with
+        versions := (sortDesc r.versions).take (i + keepOf keep),
+        disk := r.disk.filter (fun fk =>
+          !(((sortDesc r.versions).drop (i + keepOf keep)).filter (·.avail)).any (fun rv => rv.ver == fk.1)) }) := by
+  unfold Res.purge
+  split
+  · exact Or.inl ⟨r.versions, List.Perm.refl _, rfl⟩
+  · simp only []
+    split
+    · exact Or.inl ⟨_, sortDesc_perm _, rfl⟩
+    · rename_i i hi
+      split
+      · exact Or.inl ⟨_, sortDesc_perm _, rfl⟩
+      · rename_i hb
+        exact Or.inr ⟨i, hi, by simp at hb; omega, rfl⟩
+
+theorem mem_purge_disk {disk : List FileKey} {gone : List RV} {fk : FileKey} :
+    fk ∈ disk.filter (fun fk => !(gone.filter (·.avail)).any (fun rv => rv.ver == fk.1)) ↔
+      fk ∈ disk ∧ ∀ rv ∈ gone, rv.avail = true → rv.ver ≠ fk.1 := by
+  simp only [List.mem_filter, Bool.not_eq_true', List.any_eq_false, beq_iff_eq, and_imp]
+
+/-- entries before and behind a cut of a list with pairwise different version numbers differ -/
+theorem verNodup_cut {s : List RV} (hn : VerNodup s) (n : Nat) {a b : RV}
+    (ha : a ∈ s.take n) (hb : b ∈ s.drop n) : a.ver ≠ b.ver := by
+  have := hn
+  rw [VerNodup, ← List.take_append_drop n s] at this
+  exact (List.pairwise_append.mp this).2.2 a ha b hb
+
+theorem sorted_cut {s : List RV} (hs : Sorted s) (n : Nat) {a b : RV}
+    (ha : a ∈ s.take n) (hb : b ∈ s.drop n) : a.ver.lt b.ver = false := by
+  have := hs
+  rw [Sorted, ← List.take_append_drop n s] at this
+  exact (List.pairwise_append.mp this).2.2 a ha b hb
+
+/-- every required version that is listed sits before the boundary found by the search -/
+theorem required_before_boundary {r : Res} (hn : VerNodup r.versions) {i : Nat}
+    (hi : boundaryIdx r.active r.selected false false false 0 (sortDesc r.versions) = some i)
+    {v : Ver} (hreq : Required r v) {e : RV} (he : e ∈ sortDesc r.versions) (hev : e.ver = v) :
+    e ∈ (sortDesc r.versions).take i := by
+  obtain ⟨j, hij, _, hA, hS, hT⟩ := boundaryIdx_spec _ _ _ _ _ _ _ _ hi
+  have hij : i = j := by omega
+  subst hij
+  have hns := verNodup_sortDesc hn
+  have key : ∀ x ∈ (sortDesc r.versions).take i, x.ver = v → e ∈ (sortDesc r.versions).take i := by
+    intro x hx hxv
+    have : x = e := hns.eq_of_ver (List.mem_of_mem_take hx) he (hxv.trans hev.symm)
+    rwa [← this]
+  rcases hreq with h | h | ⟨rv, hnew, hrv⟩
+  · rcases hA v h with h | ⟨x, hx, hxv⟩
+    · cases h
+    · exact key x hx hxv
+  · rcases hS v h with h | ⟨x, hx, hxv⟩
+    · cases h
+    · exact key x hx hxv
+  · rcases hT with h | ⟨t, ht, htp⟩
+    · cases h
+    · -- e is the newest stable entry; t is a stable entry before the boundary
+      have hrve : rv = e := hns.eq_of_ver (mem_sortDesc.mpr hnew.1) he (hrv.trans hev.symm)
+      subst hrve
+      rcases List.mem_append.mp (by rw [List.take_append_drop]; exact he :
+          rv ∈ (sortDesc r.versions).take i ++ (sortDesc r.versions).drop i) with h | h
+      · exact h
+      · have h1 := sorted_cut (sortDesc_sorted r.versions) i ht h
+        have h2 := hnew.2.2 t (mem_sortDesc.mp (List.mem_of_mem_take ht)) htp
+        exact absurd (Ver.lt_total _ _ h1 h2) (verNodup_cut hns i ht h)
+
+theorem mem_take_mono {α : Type} {l : List α} {x : α} {i : Nat} (k : Nat) (h : x ∈ l.take i) : x ∈ l.take (i + k) := by
+  have : l.take i = (l.take (i + k)).take i := by rw [List.take_take]; congr 1; omega
+  rw [this] at h
+  exact List.mem_of_mem_take h
+
 end PB.Updater
